@@ -31,6 +31,18 @@ theorem pickFour_distinct (ds : List Nat) {a b c d : Fin n} {rest : List Nat}
     ∃ k ∈ ds, k < n ^ 4 ∧ a.val = k % n ∧ b.val = k / n % n ∧ c.val = k / n ^ 2 % n ∧ d.val = k / n ^ 3 % n :=
   pickFour_spec ds h
 
+/-- four distinct nodes exist only in networks with at least four nodes: `pickFour` can return only for n ≥ 4
+(for n < 4 the Python routine recurses without end) -/
+theorem pickFour_needs_four (ds : List Nat) {a b c d : Fin n} {rest : List Nat}
+    (h : pickFour n ds = .ok ((a, b, c, d), rest)) : 4 ≤ n :=
+  four_le_of_distinct (pickFour_spec ds h).1
+
+/-- n < 4: the rewiring routines return their input with `eff = 0` and draw nothing (`if n < 4: return R, 0`), so
+`run_signed_inv`, `null_model_*_spec` below are not vacuous for small networks -/
+theorem run_signed_small_n (und : Bool) (R : AMat Int n) (itr : Nat) (ds : List Nat) (hn : n < 4) :
+    run und R itr ds = .ok (R, 0, ds) :=
+  run_small und R itr ds hn
+
 /-- One accepted sign-guarded exchange (4 cells directed, 8 cells undirected) on four distinct nodes:
 per-row and per-column counts of positive and of negative cells, the multiset of all cells and the
 diagonal are preserved; for the undirected routine (symmetric input) symmetry is preserved. -/
@@ -178,6 +190,9 @@ example : (nullModel true S0 0 1 [[1, 0], [0], [0, 1], [0]] [1, 0, 0, 0, 1, 0]).
     = some #v[#v[0, 3, 0, -1], #v[3, 0, -4, 0], #v[0, -4, 0, 2], #v[-1, 0, 2, 0]] := by decide +kernel
 -- correlation ingredients on S0 and its null model output: r = cov / sqrt(var·var)
 example : (corrTriples S0 S0).rpi = (4, 4, 4) ∧ (corrTriples S0 S0).rni = (36, 36, 36) := by decide +kernel
+-- three nodes: nothing to rewire, the dealing stage still runs (weights 2 and 5 of the positive cells are exchanged)
+example : (nullModel false (#v[#v[0, 2, -1], #v[5, 0, 0], #v[0, -3, 0]] : AMat Int 3) 5 1 [[1, 0], [0], [0, 1], [0]] [0, 1, 0, 0, 1, 0]).toOption.map (·.W0)
+    = some #v[#v[0, 5, -1], #v[2, 0, 0], #v[0, -3, 0]] := by decide +kernel
 example : nullModel true R0 0 0 [] [] = .error .param := null_model_und_rejects R0 0 0 [] [] (by decide)
 
 end Bct.C06
